@@ -389,7 +389,7 @@ class HistoryGen:
     """A history: list of call descriptions (see c17_worker) + per call the abstract model call."""
     # families aimed at one class of leak each; c17.py makes every history contain some of them (round robin), so that a
     # quick run does not depend on luck to contain each family several times
-    TARGETED = ["c_fixed_decimal_sequence", "c_revalidate", "c_defaults", "c_dangling_reference", "c_lazy_readers", "c_union_hints", "c_legacy_defaults", "c_redefined_names",
+    TARGETED = ["c_default_aliasing", "c_fixed_decimal_sequence", "c_revalidate", "c_defaults", "c_dangling_reference", "c_lazy_readers", "c_union_hints", "c_legacy_defaults", "c_redefined_names",
                 "c_writer_object", "c_piecewise_use", "c_read_union_of_records", "c_read_decimal_focus"]
 
     def __init__(self, rng, ncalls, must=()):
@@ -984,6 +984,33 @@ class HistoryGen:
             else:
                 self.emit({"api": "block_reader", "data": data}, "(CFailing (CRead []) 0%nat)", expect="raise")
 
+    def c_default_aliasing(self):
+        """two default-supplying reads in a row with ONE reader / JSON schema object; the consumer adds to every container
+        of what the first read returned before the second read starts"""
+        rng = self.rng
+        arg, raw, defined = self.pick_defaulted()
+        k = rng.choice(["resolve", "resolve_container", "json_reader"])
+        # the writer wrote none of the container-typed defaulted fields
+        wfields = [f for f in raw["fields"] if "default" not in f or (f["name"] in ("ds", "dl", "db") and rng.random() < 0.5)]
+        wraw = {"type": "record", "name": raw["name"], "fields": [{k2: v for k2, v in f.items() if k2 != "default"} for f in wfields]}
+        for first in (True, False):
+            dg = DataGen(rng, "read", defined)
+            if k == "resolve":
+                call = {"api": "schemaless_reader", "schema": wraw, "data": encode(wraw, dg.gen(wraw), defined), "reader_schema": arg}
+                ab = "(CRead [])"
+            elif k == "resolve_container":
+                recs = [dg.gen(wraw) for _ in range(rng.randrange(1, 4))]
+                call = {"api": "reader", "data": container(wraw, recs, defined, "null"), "reader_schema": arg}
+                ab = "(CRead [])"
+            else:
+                recs = [dg.gen(wraw) for _ in range(rng.randrange(1, 3))]
+                text = "".join(json.dumps({f["name"]: to_json(f["type"], r[f["name"]], defined) for f in wraw["fields"]}) + "\n" for r in recs)
+                call = {"api": "json_reader", "schema": arg, "text": text}
+                ab = "(CJsonRead [])"
+            if first:
+                call["$mutate_result"] = True
+            self.emit(call, ab, expect="ok")
+
     # --- names that only an EARLIER call defined ---------------------------------------------
     def c_dangling_reference(self):
         """a schema that merely REFERS to a type name (defined by other schemas of the history, never by itself):
@@ -1257,7 +1284,7 @@ class HistoryGen:
 
     KINDS = [("c_parse", 5), ("c_schemaless_writer", 3), ("c_schemaless_reader", 3), ("c_read_truncated", 1), ("c_read_union_of_records", 2),
              ("c_defaults", 5), ("c_dangling_reference", 2), ("c_lazy_readers", 1),
-             ("c_union_hints", 2), ("c_legacy_defaults", 2), ("c_redefined_names", 4), ("c_writer_object", 1), ("c_piecewise_use", 2), ("c_revalidate", 1), ("c_fixed_decimal_sequence", 1),
+             ("c_union_hints", 2), ("c_legacy_defaults", 2), ("c_redefined_names", 4), ("c_writer_object", 1), ("c_piecewise_use", 2), ("c_revalidate", 1), ("c_fixed_decimal_sequence", 1), ("c_default_aliasing", 1),
              ("c_read_decimal_focus", 3), ("c_writer", 3), ("c_reader", 2), ("c_reader_truncated", 1), ("c_validate", 3),
              ("c_canonical", 1), ("c_fingerprint", 1), ("c_json_writer", 2), ("c_json_reader", 1), ("c_generate", 1), ("c_load", 2)]
 
